@@ -305,7 +305,17 @@ func (c *Client) sendRecv(tm message, rm message) error {
 	if !ok {
 		return ErrOutOfTags
 	}
-	defer c.tagPool.Put(t)
+	// The tag goes back to the pool once its request has been answered or is
+	// known not to have been sent. When the wait fails instead (all pending
+	// calls are failed after a frame the client cannot accept), the server may
+	// still answer the request later, and a new request under the same tag
+	// would be handed that reply.
+	reuseTag := true
+	defer func() {
+		if reuseTag {
+			c.tagPool.Put(t)
+		}
+	}()
 
 	// Indicate we're expecting a response.
 	//
@@ -342,6 +352,7 @@ func (c *Client) sendRecv(tm message, rm message) error {
 
 	// Co-ordinate with other receivers.
 	if err := c.waitAndRecv(resp.done); err != nil {
+		reuseTag = false
 		return fmt.Errorf("wait: %w", err)
 	}
 
